@@ -338,8 +338,16 @@ func (r *Scanner) inflateContent(contentOffset int64, writer io.Writer, declared
 	}
 	defer gogitsync.PutZlibReader(zr)
 
-	_, err = ioutil.CopyBufferPool(bounded, zr)
-	return err
+	n, err := ioutil.CopyBufferPool(bounded, zr)
+	if err != nil {
+		return err
+	}
+	// The bounded writer rejects an overrun; an entry that inflates to
+	// fewer bytes than its header declares is malformed too.
+	if n != declaredSize {
+		return ErrInflatedSizeMismatch
+	}
+	return nil
 }
 
 // scan goes through the next stateFn.
@@ -532,9 +540,14 @@ func objectEntry(r *Scanner) (stateFn, error) {
 	// the resolved object.
 	mw = &boundedWriter{w: mw, limit: oh.Size}
 
-	_, err = ioutil.CopyBufferPool(mw, zr)
+	n, err := ioutil.CopyBufferPool(mw, zr)
 	if err != nil {
 		return nil, err
+	}
+	// The bounded writer rejects an overrun; an entry that inflates to
+	// fewer bytes than its header declares is malformed too.
+	if n != oh.Size {
+		return nil, ErrInflatedSizeMismatch
 	}
 
 	if err := r.Flush(); err != nil {
